@@ -123,7 +123,10 @@ def profiles_for(pid, tier):
         "C10": [("crash", dict(three, w_crash=6, w_sweep=3, quiesce=True), N(160, 1500)),
                 ("crash-usage", dict(base, w_crash=8, w_sweep=4, quiesce=True, usage=True), N(100, 1000)),
                 ("resend", dict(three, n_ops=30, w_sweep=1, w_restart=1), N(60, 500))],
-        "C11": [("restart", dict(three, w_restart=5, w_sweep=5, w_reconnect=8), N(160, 1500))],
+        "C11": [("restart", dict(three, w_restart=5, w_sweep=5, w_reconnect=8), N(160, 1500)),
+                ("small-world", dict(base, n_ops=60, apps=["a"], sides=["s1", "s2"], names=["1"], client_mailboxes=["m1"],
+                                     w_open=14, w_close=12, w_add=8, w_reconnect=12, w_drop=6, w_claim=3, w_allocate=0,
+                                     w_release=2, w_sweep=7, w_bigjump=5, w_restart=4), N(160, 1500))],
         "C12": [("timer", dict(three, _mode={"timer": True}, timer=True, w_sweep=6, w_crash=0, w_reconnect=6, w_bigjump=2), N(160, 1500)),
                 ("direct", dict(three, w_sweep=8, w_bigjump=3), N(100, 800))],
         "C13": [("timer-quiesce", dict(three, _mode={"timer": True}, timer=True, w_sweep=5, quiesce=True, p_fault=0.25), N(160, 1500)),
